@@ -18,7 +18,7 @@ DESIGN_REF = "DESIGN.md section 7 (C17)"
 RULE = (
     "Exhaustive: every ordered rooted tree with 1..6 (quick) / 1..7 (thorough) nodes; for all node pairs: LCA == first common node of the two "
     "root paths, is_ancestor_of, is_strict_ancestor_of, is_comparable, distance; level for every node; for all triples: LCA of three == deepest "
-    "common ancestor; a second query structure built for each subtree below the root (same node objects) answers for that subtree and leaves the first one intact; after a prune-and-regraft edit of the tree in place (all single moves up to 5 nodes) a structure built afterwards for the same root describes the new shape.  Range-minimum: all arrays over {0,1,2} of length 1..8 / 1..9, all (start, stop) with 0 <= start, stop <= len (empty ranges "
+    "common ancestor; a second query structure built for each subtree below the root (same node objects) answers for that subtree and leaves the first one intact; after a prune-and-regraft edit of the tree in place (all single moves up to 5 nodes) a structure built afterwards for the same root describes the new shape.  Nodes carry branch lengths 1, 0 or 2.5 (level and distance count edges, not lengths).  Range-minimum: all arrays over {0,1,2} of length 1..8 / 1..9, all (start, stop) with 0 <= start, stop <= len (empty ranges "
     "give None).  Random: trees up to 40 nodes with random arities (queries on 30 drawn tuples of 1-4 nodes), arrays up to 60 elements.  "
     "Non-trivial: tree with >=2 internal nodes / array of length >=2; distinct by SHA-1 of the shape/array."
 )
@@ -102,6 +102,10 @@ def _build(case):
             c = nodes[p].add_child(Tree())
             nodes.append(c)
             parent[i] = p
+    # branch lengths are data of the tree, not part of its shape: levels and distances count edges whatever the
+    # lengths are (deterministic pattern derived from the node index; 1.0 - ete3's default - for every third node)
+    for i, node in enumerate(nodes):
+        node.dist = (1.0, 0.0, 2.5)[i % 3] if case.get("_lengths", True) else 1.0
     return nodes, parent
 
 
